@@ -100,7 +100,7 @@ def rule_R1(ctx, prj, r: Reader):
             ctx.ok("R1", f.site(h), f"{f.local}: handler yields 'no cache' (None)")
         elif only_pass:
             # falls through: the names bound in the try body must not be used afterwards
-            tr = [t for t in f.walk() if isinstance(t, ast.Try) and h in t.handlers][0]
+            tr = getattr(h, "_suppress_with", None) or [t for t in f.walk() if isinstance(t, ast.Try) and h in t.handlers][0]
             bound = {x.id for s in tr.body for x in ast.walk(s) if isinstance(x, ast.Name) and isinstance(x.ctx, ast.Store)}
             after = False
             used = set()
